@@ -42,6 +42,7 @@ class FieldArrayModel(FieldCompositeModel):
         self.product_expr = None
         
         self.presolve_len = None
+        self.presolve_size = None
         self.size = FieldScalarModel(
             "size",
             32,
@@ -86,8 +87,9 @@ class FieldArrayModel(FieldCompositeModel):
         # have a random size
         if self.is_rand_sz:
             self.size.set_used_rand(True)
-            # Number of elements the user sees before this call
+            # Number of elements and size the user sees before this call
             self.presolve_len = len(self.field_l)
+            self.presolve_size = int(self.size.get_val())
         else:
             self._set_size(len(self.field_l))
         FieldCompositeModel.pre_randomize(self, visited)
